@@ -25,19 +25,36 @@ pub fn cmd_native_x86(seed: u64, n: usize, out: &mut dyn Write, dirs: &[String])
     let work = std::path::PathBuf::from(format!("{}/.cache/native/{}-{}", pipe::verif_root(), seed, std::process::id()));
     let _ = std::fs::remove_dir_all(&work);
     let mut k = 0usize;
-    for (name, text) in sources(seed, n, dirs) {
-        let checked = match pipe::checked(&text) { Ok(c) => c, Err(_) => continue };
+    if dirs.first().map(|d| d == "c14probe").unwrap_or(false) {
+        // witnesses of the known finding label-collision-name-digits, built for the current label counter (c14probe.rs)
+        for j in 0..n.max(2) {
+            let Some((lc, text)) = crate::c14probe::probe("x86", j % 2) else { continue };
+            let name = format!("c14probe:{}:{}", if j % 2 == 0 { "clause-clause" } else { "table-clause" }, lc);
+            if native_case(&work, k, &name, &text, seed, out) { k += 1; }
+        }
+    } else {
+        for (name, text) in sources(seed, n, dirs) {
+            if native_case(&work, k, &name, &text, seed, out) { k += 1; }
+        }
+    }
+    let _ = std::fs::remove_dir_all(&work);
+}
+
+/// one program through the whole path; false = not a case (rejected, no valid entry point, capacity panic)
+fn native_case(work: &std::path::Path, k: usize, name: &str, text: &str, seed: u64, out: &mut dyn Write) -> bool {
+    {
+        let checked = match pipe::checked(text) { Ok(c) => c, Err(_) => return false };
         // a valid entry point: main with at most five integer parameters
         let main_ok = checked.defs.iter().any(|d| d.name == "main");
-        if !main_ok { continue; }
-        let lin = match pipe::linearized(&text) { Ok(p) => p, Err(_) => continue };
-        if !lin.defs.first().map(|d| d.context.bindings.iter().all(|b| b.chi == axcut::syntax::Chirality::Ext) && d.context.bindings.len() <= 5).unwrap_or(false) { continue; }
+        if !main_ok { return false; }
+        let lin = match pipe::linearized(text) { Ok(p) => p, Err(_) => return false };
+        if !lin.defs.first().map(|d| d.context.bindings.iter().all(|b| b.chi == axcut::syntax::Chirality::Ext) && d.context.bindings.len() <= 5).unwrap_or(false) { return false; }
         let nargs = lin.defs[0].context.bindings.len();
         let asm = match std::panic::catch_unwind(move || {
             let a = compile::<axcut2x86_64::Backend, _, _, _>(lin);
             axcut2x86_64::into_routine::into_x86_64_routine(a).print_to_string(None)
-        }) { Ok(t) => t, Err(_) => continue };
-        let built = native::build(&work, &format!("p{k}"), &asm, nargs);
+        }) { Ok(t) => t, Err(_) => return false };
+        let built = native::build(work, &format!("p{k}"), &asm, nargs);
         let mut rng = crate::rng::Rng::new(seed.wrapping_add(k as u64));
         let mut res = String::new();
         match &built.assembler_errors {
@@ -54,9 +71,8 @@ pub fn cmd_native_x86(seed: u64, n: usize, out: &mut dyn Write, dirs: &[String])
                 }
             }
         }
-        writeln!(out, "(case {k} ({} {} {}) ({}))", quote(&name), dbg(&checked), nargs, res).unwrap();
+        writeln!(out, "(case {k} ({} {} {}) ({}))", quote(name), dbg(&checked), nargs, res).unwrap();
         let _ = std::fs::remove_file(work.join(format!("p{k}.bin")));
-        k += 1;
+        true
     }
-    let _ = std::fs::remove_dir_all(&work);
 }
